@@ -5,6 +5,9 @@
 (*   - every single edit: each field to each boundary value of its class, and the   *)
 (*     edits of the enclosing KeyData (material type, type URL, damaged value);     *)
 (*     quick tier: on the first base of the type; thorough: on every base;          *)
+(*   - on EVERY base of every asymmetric private key type, in both tiers: the public  *)
+(*     part (then the private part) replaced by that of another valid key of the      *)
+(*     same configuration (KTParts) - halves that are each valid but do not match;    *)
 (*   - thorough: every pair of edits of two different size-like fields.             *)
 (* The driver builds the key, applies the edits, wraps it in a one-key keyset and    *)
 (* loads it; an accepted handle is projected, a primitive is created through the     *)
@@ -28,7 +31,10 @@ Case(t, b, p, es) == [type |-> t, base |-> b, prefix |-> p, edits |-> es]
 Cases0 == UNION {{Case(t, b, p, <<>>) : b \in RangeOf(KTBases(t)), p \in PrefixNames} : t \in KTTypes}
 Cases1 == UNION {UNION {{Case(t, b, KTPrefix(t), <<e>>) : e \in SingleEdits(t, b)} : b \in EditBases(t)} : t \in KTTypes}
 Cases2 == UNION {UNION {{Case(t, b, KTPrefix(t), es) : es \in PairEdits(t, b)} : b \in {KTBases(t)[1]}} : t \in KTTypes}
-Cases ==  Cases0 \cup Cases1 \cup (IF Thorough THEN Cases2 ELSE {})
+Swap(paths) == LET ps == SetToSeq(paths) IN [i \in DOMAIN ps |-> [path |-> ps[i], op |-> "sibling", v |-> 0]]
+CasesMismatch == UNION {UNION {{Case(t, b, KTPrefix(t), Swap(ps)) : ps \in KTParts(t, b).pub \cup KTParts(t, b).priv}
+                               : b \in RangeOf(KTBases(t))} : t \in KTPrivateTypes}
+Cases ==  Cases0 \cup Cases1 \cup CasesMismatch \cup (IF Thorough THEN Cases2 ELSE {})
 
 VARIABLE done
 Init == done = LET cs == SetToSeq(Cases) IN
